@@ -87,7 +87,7 @@ fn matrix(rep: &mut Report, u: &mut U, ep: &Ep, stranger: &Address, state: &str)
         }
         if o.ok() != must_ok {
             if o.ok() && !ep.valid && class == "named-address" {
-                rep.violation(&format!("acted-without-allowance:{}", ep.name), format!("{} ({}) moved another address's funds although that address never allowed it", ep.name, state));
+                rep.violation(&format!("debited-without-owner's-consent:{}:{}", ep.name, state), format!("{} ({}) debited another address's funds although that address never allowed it", ep.name, state));
             } else if o.ok() {
                 rep.violation(&format!("acted-without-named-address:{}:{}", class, ep.name), format!("{} ({}) succeeded when authorised only by: {}", ep.name, state, class));
             } else {
@@ -203,6 +203,24 @@ pub fn run(ctx: &Ctx, rep: &mut Report) {
                 ];
                 for (i, ep) in no_allow.iter().enumerate() {
                     matrix(rep, &mut u, ep, &stranger, ["no-allowance,recipient=spender", "no-allowance,recipient=owner-of-funds", "no-allowance,recipient=third-party", "no-allowance"][i]);
+                }
+                // a minter (or the owner) is not thereby allowed to spend other people's funds, and
+                // minting a negative amount would debit the recipient
+                let (m2, o2, v2) = (minter.clone(), owner.clone(), a.clone());
+                let role_eps = vec![
+                    Ep { valid: false, name: "token.burn_from", named: minter.clone(), counterparty: Some(a.clone()), owner: Some(owner.clone()),
+                         call: { let (s, f) = (m2.clone(), v2.clone()); mk(Rc::new(move |cl, _| flat(cl.try_burn_from(&s, &f, &10)))) }, other_args: None },
+                    Ep { valid: false, name: "token.transfer_from", named: minter.clone(), counterparty: Some(a.clone()), owner: Some(owner.clone()),
+                         call: { let (s, f) = (m2.clone(), v2.clone()); mk(Rc::new(move |cl, _| flat(cl.try_transfer_from(&s, &f, &s, &10)))) }, other_args: None },
+                    Ep { valid: false, name: "token.burn_from", named: owner.clone(), counterparty: Some(a.clone()), owner: None,
+                         call: { let (s, f) = (o2.clone(), v2.clone()); mk(Rc::new(move |cl, _| flat(cl.try_burn_from(&s, &f, &10)))) }, other_args: None },
+                    Ep { valid: false, name: "token.mint_from", named: minter.clone(), counterparty: Some(a.clone()), owner: Some(owner.clone()),
+                         call: { let (s, f) = (m2.clone(), v2.clone()); mk(Rc::new(move |cl, _| flat(cl.try_mint_from(&s, &f, &-400)))) }, other_args: None },
+                    Ep { valid: false, name: "token.mint_from", named: owner.clone(), counterparty: Some(a.clone()), owner: None,
+                         call: { let f = v2.clone(); mk(Rc::new(move |cl, _| flat(cl.try_mint(&f, &-250)))) }, other_args: None },
+                ];
+                for (i, ep) in role_eps.iter().enumerate() {
+                    matrix(rep, &mut u, ep, &stranger, ["no-allowance,spender-is-minter", "no-allowance,spender-is-minter,recipient=spender", "no-allowance,spender-is-owner", "negative-mint-by-minter", "negative-mint-by-owner"][i]);
                 }
                 // the allowance granted to b (300) must not be exceeded either, even when b is the recipient
                 let over = Ep { valid: false, name: "token.transfer_from", named: b.clone(), counterparty: Some(a.clone()), owner: Some(owner.clone()),
